@@ -454,6 +454,17 @@ impl Ctx {
             rep.samples.push(json!({"batch": s.name(), "run_index": i, "plan": truncate_json(serde_json::to_value(&plan).unwrap_or(Value::Null), 40)}));
         }
         rep.violations = viols.len() as u64;
+        if std::env::var("VERIF_LIST_SIGNATURES").is_ok() {
+            // triage aid: histogram of violation signatures (before minimisation)
+            let mut h: BTreeMap<String, (u64, u64)> = BTreeMap::new();
+            for (i, v) in &viols {
+                let e = h.entry(v.signature.clone()).or_insert((0, *i));
+                e.0 += 1;
+            }
+            for (sig, (n, first)) in h {
+                eprintln!("SIGNATURE {:>8}  first_run={:<9} {}", n, first, sig);
+            }
+        }
         // Report: one minimised replay per distinct signature (first occurrence), at most 8.
         let mut seen_sig: BTreeSet<String> = BTreeSet::new();
         let mut minimised = 0;
